@@ -37,6 +37,7 @@ import (
 	"github.com/IrineSistiana/mosproxy/app/router"
 	"github.com/IrineSistiana/mosproxy/internal/dnsmsg"
 	"github.com/IrineSistiana/mosproxy/internal/pool"
+	"github.com/IrineSistiana/mosproxy/internal/upstream"
 	"github.com/IrineSistiana/mosproxy/internal/upstream/transport"
 	"github.com/IrineSistiana/mosproxy/verifharness/hx"
 )
@@ -63,6 +64,10 @@ type c20Up struct {
 	rngMu    sync.Mutex
 	rng      *rand.Rand
 	maxDelay int // ms
+	// round 4 faults: fraction (per mille) of UDP queries answered with TC=1 (the proxy's udp upstream then repeats the query
+	// over TCP), and of TCP queries answered with a frame that ends early (length prefix, part of the body, close)
+	tcPerMille      int
+	tcpFailPerMille int
 	queries  atomic.Int64
 	poison   atomic.Int64
 	foreign  atomic.Int64
@@ -80,6 +85,15 @@ func (u *c20Up) delay() time.Duration {
 }
 
 // inspect returns the reply for a received query, or nil (and counts) when the query is damaged
+func (u *c20Up) roll(perMille int) bool {
+	if perMille <= 0 {
+		return false
+	}
+	u.rngMu.Lock()
+	defer u.rngMu.Unlock()
+	return u.rng.Intn(1000) < perMille
+}
+
 func (u *c20Up) inspect(q []byte, proto string) []byte {
 	u.queries.Add(1)
 	key := hx.QuestionKey(q)
@@ -107,6 +121,9 @@ func (u *c20Up) serveUDP() {
 		r := u.inspect(q, "udp")
 		if r == nil {
 			continue
+		}
+		if u.roll(u.tcPerMille) {
+			r[2] |= 0x02 // TC: same question and keyed answer, truncated flag set
 		}
 		d := u.delay()
 		go func() {
@@ -144,6 +161,20 @@ func (u *c20Up) serveTCP() {
 				r := u.inspect(q, "tcp")
 				if r == nil {
 					continue
+				}
+				if u.roll(u.tcpFailPerMille) {
+					// the reply ends inside the frame: length prefix, part of the body, then the connection is closed
+					fr := c20Frame(r)
+					u.rngMu.Lock()
+					cut := 2 + u.rng.Intn(len(r))
+					u.rngMu.Unlock()
+					// (the close happens under the write lock: a delayed reply of another pipelined query written behind the
+					// partial frame would be read by the proxy as the rest of THIS frame's body)
+					wm.Lock()
+					c.Write(fr[:cut])
+					c.Close()
+					wm.Unlock()
+					return
 				}
 				d := u.delay()
 				go func() {
@@ -333,6 +364,8 @@ func runOwnLoad(id string, parts []string) string {
 	return guard(id, 170*time.Second, func() string {
 		pool.VerifPoison(true)
 		pool.VerifEvents()
+		dnsmsg.VerifObjTrack(true) // ownership tracking of the pooled objects (Msg, Question, resource structs)
+		dnsmsg.VerifObjEvents()
 		router.VerifQuiet()
 		seed := int64(hx.MustAtoi(f["seed"]))
 		n := hx.MustAtoi(f["n"])
@@ -350,6 +383,12 @@ func runOwnLoad(id string, parts []string) string {
 			defer u.close()
 			ups = append(ups, u)
 		}
+		// fault mix: the udp upstream truncates some replies and its TCP leg (only the fallback goes there) often ends a
+		// frame early; the tcp reuse / tcp pipeline upstreams do so rarely (a closed pipelined connection fails every
+		// exchange in flight on it)
+		ups[0].tcPerMille, ups[0].tcpFailPerMille = 120, 300
+		ups[1].tcpFailPerMille = 30
+		ups[2].tcpFailPerMille = 15
 
 		// ---- phase 1: the router ----
 		dir, err := os.MkdirTemp("", "c20load")
@@ -422,9 +461,18 @@ func runOwnLoad(id string, parts []string) string {
 						idx = grng.Intn(len(vocab.names))
 					}
 					typ := []uint16{1, 28, 16}[grng.Intn(3)]
-					q := hx.BuildQuery(uint16(grng.Intn(65536)), mixCase(grng, vocab.names[idx]), typ, 1, true)
+					// one query in 16 is "not implemented" for the router (RD clear): answered by a header-only reply
+					rd := grng.Intn(16) != 0
+					q := hx.BuildQuery(uint16(grng.Intn(65536)), mixCase(grng, vocab.names[idx]), typ, 1, rd)
 					l := listeners[grng.Intn(len(listeners))]
 					st.q.Add(1)
+					if grng.Intn(16) == 0 {
+						// a stream client whose frame ends early (FIN or RST after the length prefix and part of the body)
+						sl := []string{"tcp", "gnet"}[grng.Intn(2)]
+						c20FaultClient(env, sl, []string{"short-body", "reset-mid-body", "short-prefix"}[grng.Intn(3)], grng)
+						st.lost.Add(1)
+						continue
+					}
 					if grng.Intn(12) == 0 {
 						// a client that hangs up at once: the handler's write fails or goes nowhere
 						env.Query(l, q, "-", time.Duration(1+grng.Intn(3))*time.Millisecond, time.Millisecond)
@@ -470,6 +518,10 @@ func runOwnLoad(id string, parts []string) string {
 			transport.NewPipelineTransport(transport.PipelineOpts{DialContext: dial("udp", ups[0])}),
 			transport.NewReuseConnTransport(transport.ReuseConnOpts{DialContext: dial("tcp", ups[1])}),
 		}
+		// the udp upstream as the router builds it (udp pipeline + tcp fallback for truncated replies)
+		if fb, err := upstream.NewUpstream(fmt.Sprintf("udp://127.0.0.1:%d", ups[0].port), upstream.Opt{}); err == nil {
+			trs = append(trs, fb, fb)
+		}
 		tconc := conc
 		tper := tn / tconc
 		for g := 0; g < tconc; g++ {
@@ -499,6 +551,12 @@ func runOwnLoad(id string, parts []string) string {
 					cancel()
 					tx.Add(1)
 					if err != nil {
+						continue
+					}
+					if dnsmsg.VerifObjReleased(m) {
+						tbad.Add(1)
+						st.firstBad.CompareAndSwap(nil, fmt.Sprintf("transport %T returned a released message for q=%s", tr, hx.Hex(q)))
+						dnsmsg.ReleaseMsg(m)
 						continue
 					}
 					good := m.Header.ID == qid && len(m.Questions) == 1 && len(m.Answers) == 1
